@@ -7,6 +7,7 @@
       3. whole suite on the patched worktree must pass (PYTHONPATH points at the worktree)
       4. every property check is run against the patched tree (run.py --src); rules that report are recorded
       5. artefacts copied to /verif/seeded/<id>/ ; scratch worktree removed
+  seeded.py rerun-scratch [jobs]   the same against scratch copies of /repo/src, several at a time (development shortcut)
   seeded.py rerun            re-run all checks against every kept change (apply to /repo, run, undo) and rewrite INDEX.md
 """
 import json
@@ -146,8 +147,53 @@ def rerun():
     write_index()
 
 
+def _scratch_one(d):
+    """All twenty checks (one process, tools/run_all.py) against a scratch copy of /repo/src with one kept patch applied."""
+    import tempfile
+    base = os.path.join(VERIF, "seeded")
+    patch = os.path.join(base, d, "patch.diff")
+    work = tempfile.mkdtemp(prefix="xsm_seed_")
+    try:
+        os.makedirs(os.path.join(work, "src"))
+        shutil.copytree("/repo/src/xstate_statemachine", os.path.join(work, "src", "xstate_statemachine"), ignore=shutil.ignore_patterns("__pycache__"))
+        r = sh(["patch", "-p1", "-s", "-i", patch], cwd=work)
+        if r.returncode != 0:
+            return d, None, (r.stdout + r.stderr)[-200:]
+        r = sh([PY, os.path.join(VERIF, "tools", "run_all.py"), os.path.join(work, "src", "xstate_statemachine")], cwd=VERIF)
+        res = json.loads(r.stdout.strip().splitlines()[-1])
+        caught = {}
+        for p_, v in res.items():
+            if v["rc"] == 1:
+                caught[p_] = {"rules": sorted(set(v["rules"])), "reports": [x[:400] for x in v["reports"]][:6]}
+            elif v["rc"] == 2:
+                caught[p_] = {"rules": ["ANALYSIS-ERROR"], "reports": [x[:300] for x in v["reports"]][:1]}
+        return d, caught, ""
+    finally:
+        shutil.rmtree(work, ignore_errors=True)
+
+
+def rerun_scratch(jobs=8):
+    """Like rerun, but every kept patch is applied to its own scratch copy of /repo/src (removed at once), several at a time."""
+    import multiprocessing as mp
+    base = os.path.join(VERIF, "seeded")
+    ds = [d for d in sorted(os.listdir(base)) if os.path.exists(os.path.join(base, d, "patch.diff"))]
+    with mp.Pool(jobs) as pool:
+        for d, caught, err in pool.imap_unordered(_scratch_one, ds):
+            if caught is None:
+                print(d, "patch no longer applies:", err)
+                continue
+            mp_ = os.path.join(base, d, "meta.json")
+            m = json.load(open(mp_))
+            m["caught_by"] = caught
+            json.dump(m, open(mp_, "w"), indent=1)
+            print(d, {p_: v["rules"] for p_, v in caught.items()} or "NOT CAUGHT")
+    write_index()
+
+
 if __name__ == "__main__":
-    if sys.argv[1] == "confirm":
+    if sys.argv[1] == "rerun-scratch":
+        rerun_scratch(int(sys.argv[2]) if len(sys.argv) > 2 else 8)
+    elif sys.argv[1] == "confirm":
         r = confirm(sys.argv[2], sys.argv[3], "--skip-suite" in sys.argv)
         print(json.dumps(r, indent=1)[:3000])
         write_index()
